@@ -10,6 +10,7 @@
    returns the supergates in one legal order and the correspondence compares them as a set. *)
 From stdpp Require Import strings gmap sets fin_sets.
 From CG Require Export Types Api.
+From CG Require Import Gen.Gen_supergates.
 Open Scope string_scope.
 
 (* ================================================================ paths (DESIGN.md appendix C) *)
@@ -21,6 +22,11 @@ Definition reach c u v := ∃ k, path c u v k.
 Definition reach1 c u v := ∃ k, path c u v (S k).
 Definition has_cycle c := ∃ u, reach1 c u u.
 Definition gates (c : circuit) : gset string := dom c ∖ inputs c.
+
+(* the constants of the source, regenerated on every run (gen/plugins/supergates.py); the obligation on them *)
+Definition sg_tables_ok : bool :=
+  bool_decide (sg_limit_k = 2 ∧ sg_split_above = 1 ∧ sg_absorb_at = 1 ∧ sg_max_outputs = 1 ∧
+               sg_bb_prefix = "sg_" ∧ sg_super_suffix = "_supergates").
 
 (* ================================================================ graph search *)
 (* depth-first search from a stack; a node enters `seen` when it is pushed, so |nodes|+1 rounds suffice *)
@@ -84,10 +90,11 @@ Definition kids_table (co : circuit) (o : string) : gmap string (list string) :=
    a node with more than one child closes the chain and starts its own supergate *)
 Fixpoint absorb (fuel : nat) (kids : gmap string (list string)) (fi : string) : list string * list string :=
   match fuel with O => ([fi], []) | S k =>
-    match adj_of kids fi with
-    | [] => ([fi], [])
-    | [ch] => let r := absorb k kids ch in (fi :: r.1, r.2)
-    | _ => ([fi], [fi]) end end.
+    let ch := adj_of kids fi in
+    if (sg_split_above <? length ch)%nat then ([fi], [fi])
+    else if (length ch =? sg_absorb_at)%nat then
+      match ch with c0 :: _ => let r := absorb k kids c0 in (fi :: r.1, r.2) | [] => ([fi], []) end
+    else ([fi], []) end.
 Definition grow (fuel : nat) (kids : gmap string (list string)) (node : string) : gset string * list string :=
   let rs := absorb fuel kids <$> adj_of kids node in
   ({[node]} ∪ list_to_set (mjoin (fst <$> rs)), mjoin (snd <$> rs)).
@@ -151,7 +158,7 @@ Definition supergates (L : circuit) : res (list Circuit) :=
     match kahn (S (length m)) L m [] with None => Raise OtherError | Some l => Ok (l.*2) end).
 
 (* ================================================================ construct_supercircuit=True *)
-Definition sgn (o : string) : string := "sg_" ++ o.
+Definition sgn (o : string) : string := sg_bb_prefix ++ o.
 Definition lift (r : circuit * outcome) (k : circuit → res Circuit) : res Circuit :=
   match r.2 with Done => k r.1 | Fail e => Raise e end.
 (* one blackbox per supergate that has gates (repair: the gate-less supergate of a primary input is skipped) *)
@@ -169,9 +176,9 @@ Definition add_sg (C : Circuit) (p : string * Circuit) : res Circuit :=
                           (elements ins) (elements outs) ((λ n, (n, [n])) <$> io) in
     match r.2 with Done => Ok r.1 | Fail e => Raise e end end.
 Definition supercircuit (name : string) (L : circuit) : res (Circuit * list (string * Circuit)) :=
-  if bool_decide (1 < size (outputs L)) then Raise ValueError else
+  if bool_decide (sg_max_outputs < size (outputs L)) then Raise ValueError else
   rbind (minimal_supergates L) (λ m,
-    let C0 := {| c_name := name ++ "_supergates"; c_g := ∅; c_bbs := ∅ |} in
+    let C0 := {| c_name := name ++ sg_super_suffix; c_g := ∅; c_bbs := ∅ |} in
     (* inputs, then output buffers (repair: an input that is the output is only marked) *)
     let g1 := foldl (λ st n, match st with (g, Done) => (add_g g n Input [] [] af_default).1 | _ => st end)
                     (∅ : circuit, Done) (elements (inputs L)) in
